@@ -293,6 +293,10 @@ impl InterfaceIO for RustIOHandler {
             return Ok(());
         }
         let buffer = self.read_value(WALLET_DIR_PATH.as_str()).await?;
+        if buffer.len() < 65 {
+            // private key (32 bytes) + public key (33 bytes): a shorter file is truncated or torn
+            return Err(Error::from(std::io::ErrorKind::InvalidData));
+        }
         wallet.deserialize_from_disk(&buffer);
         Ok(())
     }
